@@ -107,11 +107,14 @@ func c11Gen(t *rapid.T) C11Case {
 	}
 	// pre-set response headers from an outer wrapper
 	for i, n := 0, uniform(t, "npreset", 4); i < n; i++ {
-		k := pick(t, "presetkey", []string{"Vary", "X-Pre", "Content-Type", "Access-Control-Allow-Origin", "Access-Control-Expose-Headers", "Set-Cookie", "X-Frame-Options"})
+		k := pick(t, "presetkey", []string{"Vary", "Vary", "X-Pre", "Content-Type", "Access-Control-Allow-Origin", "Access-Control-Expose-Headers", "Set-Cookie", "X-Frame-Options"})
 		if _, dup := (Req{Hdr: c.Preset}).Get(k); dup {
 			continue
 		}
 		c.Preset = append(c.Preset, HV{k, genValList(t, "presetv", func() Val {
+			if k == "Vary" {
+				return V(pick(t, "pvary", presetVaryPool))
+			}
 			return V(pick(t, "pv", []string{"before", "Accept-Encoding", "https://outer.example", "a=b", "*", "X-One, X-Two"}))
 		})})
 	}
